@@ -68,6 +68,8 @@ def run(tier, seed):
         trans += r.generated
         v.cov["mc_configs"].append({"cfg": f"PidAlloc_{c}", "distinct": r.distinct, "generated": r.generated, "result": "UniqueWhileBounded, CreationInForce, RefUnique, SerialAdvancesOnWrap hold under every interleaving"})
     lib.tlc_expect_violation("PidAlloc.tla", "mc/PidAlloc_nolock.cfg", PID, "mc_nolock", "UniqueWhileBounded")
+    lib.tlc_expect_violation("PidAlloc.tla", "mc/PidAlloc_refs_giveback.cfg", PID, "mc_refs_giveback", "RefUnique")
+    v.cov["mc_configs"].append({"cfg": "PidAlloc_refs_giveback", "result": "counterexample to RefUnique when a failing operation hands the words it drew back to the counter (as expected)"})
     lib.tlc_expect_violation("PidAlloc.tla", "mc/PidAlloc_rewind.cfg", PID, "mc_rewind", "UniqueWhileBounded")
     v.cov["mc_configs"].append({"cfg": "PidAlloc_rewind", "result": "counterexample to Unique when set_creation restarts the numbering and a creation value recurs (as expected)"})
     if thorough:
@@ -106,6 +108,9 @@ def run(tier, seed):
     # their words exactly the counter values (PidAlloc!RefWordsAreCounter)
     for th in (1, 4):
         scen.append({"kind": "bulk_refs", "threads": th, "total": 300000, "start_ctr": 5})
+    # the same while other threads issue operations that draw from the counter and then fail (monitor / unlink towards a node whose
+    # connection is not connected): PidAlloc!RefFail -- what a failed operation drew is not handed out again
+    scen.append({"kind": "bulk_refs", "threads": 2, "total": 200000, "start_ctr": 5, "failing": True})
     # the creation changes between bursts of allocations and comes back to values that were in force before (PidAlloc!SetCreation)
     for i, (th, sid) in enumerate(((1, 1), (2, 5), (3, MAXID - 2), (1, MAXID))):
         scen.append({"kind": "creations", "threads": th, "allocs": 2, "start_id": sid, "start_serial": 0, "creation": 1, "schedule": [], "seed": seed + i,
@@ -126,6 +131,10 @@ def run(tier, seed):
         v.case(json.dumps(s))
         if s["kind"] == "bulk_refs":
             case = {"threads": s["threads"], "references": sm["made"]}
+            if s.get("failing"):
+                case["failed_monitor_and_unlink_operations_alongside"] = sm["failed_operations_alongside"]
+                if sm["failed_operations_alongside"] < 1000:
+                    raise lib.ToolError("the operations meant to fail next to the reference makers did not fail")
             if sm["duplicates"]:
                 v.violation("the same reference was made twice", {**case, "duplicates": sm["duplicates"], "first": sm["first_duplicate"]})
             elif not sm["words_are_the_counter_values"] or sm["wrong_shape"]:
